@@ -1920,7 +1920,23 @@ func stateFacts(fset *token.FileSet, files []*ast.File, info *types.Info, pkg *t
 			ptrEffects = append(ptrEffects, fd.Name.Name+":"+strings.Join(es, ","))
 		}
 	}
+	// imports of the non-test, non-hook files (a new import is how environment, time, reflection, cgo … would come in)
+	impSet := map[string]bool{}
+	for _, f := range files {
+		for _, im := range f.Imports {
+			path := strings.Trim(im.Path.Value, "\"")
+			if im.Name != nil {
+				path = im.Name.Name + "=" + path
+			}
+			impSet[path] = true
+		}
+	}
+	var imps []string
+	for k := range impSet {
+		imps = append(imps, k)
+	}
 	return []string{
+		"/-- import paths of the package's source files (alias=path when renamed) -/\ndef pkg_imports : List String :=\n  " + lst(imps) + "\n",
 		"/-- fields of the object type (name:type), in declaration order -/\ndef obj_fields : List String :=\n  " + lstRaw(ofields) + "\n",
 		"/-- methods of the object type with a pointer receiver (the only ones that can change the object) -/\ndef obj_ptr_methods : List String :=\n  " + lst(ptrm) + "\n",
 		"/-- what each pointer-receiver method does with its receiver: writes / takes-address / passes-pointer / aliases / returns-pointer / calls:M, or reads-only -/\ndef obj_ptr_effects : List String :=\n  " + lst(ptrEffects) + "\n",
